@@ -16,6 +16,12 @@ CORPUS = [
     ["reset", "ssave 1 1 9 5500", "sync -", "ssave 1 1 9 -4500", "sync -"],
     ["reset", "outage up 1 7", "outage t0 2 7", "outage slow 3 6", "outage down 4 4", "outage down 5 0",
      "stale t0 6 1 2", "stale down 7 5 3", "sync -", "fsync post"],
+    # the primary is ahead of the cache; every route of the guard table, config that makes its write
+    # branch reachable (self-service bootstrap OTP by mail, password login): rows unchanged, no mail
+    ["reset", "ostale t0 1 0 7", "ostale slow 2 0 2", "ostale down 3 0 4", "ostale slow 4 8 1", "ostale t0 5 6 3",
+     "ostale slow 6 7 0", "ostale up 7 0 0", "ostale up 8 6 6", "ostale up 9 8 8", "sync -"],
+    # addUser of a user that exists in the cache answers 400 "User exists" (not a write): no alarm
+    ["reset", "ostale t0 7 17 11", "sync -", "ostale t0 7 16 6"],
     ["reset", "flap mgU2F 1 7", "flap genTOTP 2 2", "flap addUser 3 0", "flap deleteUser 4 5", "sync -"],
 ]
 OFFS = [-4500, 5500, 5500, 20500, 100500]
@@ -45,8 +51,12 @@ def gen_history(rng, length, heavy):
             ops.append("sync %d %s" % (rng.randint(0, 26), rng.choice(["pre", "post"])))
         elif r < 0.95:
             ops.append("fsync %s" % rng.choice(["pre", "post"]))
-        elif r < 0.95 + heavy * 0.6:
+        elif r < 0.95 + heavy * 0.3:
             ops.append("outage %s %d %d" % (rng.choice(MODES), rng.randint(6, 8), rng.randint(0, 23)))
+        elif r < 0.95 + heavy * 0.6:
+            # cached copy without devices (0, 8, 16) half of the time: the login flow's write branch
+            old = rng.choice([0, 0, 8, 16]) if rng.random() < 0.5 else rng.randint(0, 23)
+            ops.append("ostale %s %d %d %d" % (rng.choice(MODES), rng.randint(6, 8), old, rng.randint(0, 23)))
         elif r < 0.95 + heavy * 0.8:
             ops.append("stale %s %d %d %d" % (rng.choice(MODES), rng.randint(6, 8), rng.choice(U2F_PIDS), rng.randint(0, 23)))
         elif r < 0.95 + heavy:
@@ -107,9 +117,9 @@ def judge_ops(hist, impl):
                     out.append((i, "synced %s %s" % (p, m.group(3)), "sync-mirror@k=" + m.group(1)))
                 else:
                     out.append((i, "atomic %s %s %s" % (prev_c, p, m.group(3)), "sync-atomic@k=" + m.group(1)))
-        if f[0] == "outage" and f[1] != "up" and line.startswith("ok unchanged="):
+        if f[0] in ("outage", "ostale") and f[1] != "up" and line.startswith("ok unchanged="):
             toks = line.split(" | ")[0].split()[1:]
-            out.append((i, "outage %s %s" % (f[1], " ".join(toks)), "outage-" + f[1]))
+            out.append((i, "outage %s %s" % (f[1], " ".join(toks)), ("outage-" if f[0] == "outage" else "outage-stale-cache-") + f[1]))
         if f[0] == "flap" and line.startswith("ok flap"):
             out.append((i, "flap " + " ".join(line.split(" | ")[0].split()[3:]), "outage-mid-request"))
         if f[0] == "stale" and line.startswith("ok begin="):
@@ -168,7 +178,7 @@ def run(ctx):
         rp = json.load(open(ctx.replay))
         hists = [v["replay"]["history"] for v in rp.get("violations", []) if "history" in v.get("replay", {})] or CORPUS
     else:
-        n, length, heavy = (26, 22, 0.03) if ctx.quick() else (420, 40, 0.05)
+        n, length, heavy = (26, 22, 0.03) if ctx.quick() else (300, 40, 0.05)
         hists = [list(h) for h in CORPUS] + [gen_history(ctx.rng, ctx.rng.randint(length // 2, length), heavy) for _ in range(n)]
     res = run_histories(ctx, hists, "h")
     if res is None:
@@ -179,15 +189,25 @@ def run(ctx):
     c.diff_streams(ctx, "storage.go (Save/Load/Delete/UpsertSigned/DeleteSigned/copyDBIntoSQLite, handlers in an outage) vs KM.Storage",
                    ops, impl, model, canon=canon)
     # sanity of the outage matrix: with the primary reachable the same requests reach the storage code
+    reached_up = set()
     for o, l in zip(ops, impl):
-        if o.startswith("outage up"):
+        if o.startswith("outage up") or o.startswith("ostale up"):
             oks = sum(1 for t in l.split() if t.endswith("=ok"))
-            if "changed=1" not in l or oks < 9:
+            for t in l.split(" | ")[0].split()[4:]:
+                if t.endswith("=ok"):
+                    reached_up.add(t.split("=")[0])
+            if o.split()[3] == "0" and "mails=0" in l:
+                ctx.broken.append("sanity run: a password login of a user without devices no longer mails a self-service bootstrap OTP (write branch of the login flow not reached): " + l[:300])
+            if "changed=1" not in l:
                 ctx.broken.append("outage sanity run: requests no longer reach the storage code: " + l[:300])
         if l.startswith("err ") and not o.startswith("sync"):
             ctx.broken.append("op %r failed in the harness: %s" % (o, l[:200]))
         if l == "bad-op" or l.startswith("PANIC"):
             ctx.broken.append("op %r: %s" % (o, l))
+    need = {"login", "authTOTP", "waAuthFinish", "u2fRegResp", "u2fRegReq", "valTOTP", "genTOTP", "mgTOTP", "waRegBegin",
+            "mgU2F", "bootstrapAuth", "addUser", "genBootstrap"}
+    if not ctx.replay and not need <= reached_up:
+        ctx.broken.append("sanity runs (primary up): the write branch of %s was never reached" % sorted(need - reached_up))
     # violations
     seen = set()
     for r in res:
@@ -245,8 +265,8 @@ def run(ctx):
             if f[0] == "flap":
                 for t in l.split(" | ")[0].split()[3:]:
                     flap_points[f[1] + ":" + ":".join(t.split(":")[1:3])] += 1
-            if f[0] == "outage":
-                for t in l.split(" | ")[0].split()[2:]:
+            if f[0] in ("outage", "ostale"):
+                for t in l.split(" | ")[0].split()[3:]:
                     outage_tokens[f[1] + ":" + t.split("=")[-1]] += 1
             if cc is not None:
                 prev_c = cc
@@ -262,6 +282,7 @@ def run(ctx):
         "op_kinds": dict(kinds), "syncs_that_mirrored_a_deletion": deletions_mirrored,
         "fault_points_by_statement": dict(fault_letters), "faulted_sync_outcome": dict(fault_outcome),
         "profile_kinds_saved": dict(profile_kinds), "outage_answers": dict(outage_tokens),
+        "routes_answering_ok_with_primary_up": sorted(reached_up),
         "outage_mid_request_points": dict(flap_points),
         "sync_sites": [s["lean"] for s in facts.get("c15_sync_sites", [])],
         "guard_table": {"%s/%s" % (g["func"], g["write"]): g["class"] for g in facts.get("c15_guard_table", [])},
